@@ -229,6 +229,18 @@ func (b *Backend) loop(ln net.Listener) {
 	}
 }
 
+// Blackhole stops the listener and makes connects to the backend's address hang instead of being refused (see
+// portres.Port.Blackhole) until the returned function is called; established connections stay.
+func (b *Backend) Blackhole() (func(), error) {
+	b.Stop(false)
+	b.mu.Lock()
+	defer b.mu.Unlock()
+	if b.res == nil {
+		return nil, errors.New("tcpsim: backend without a reserved port")
+	}
+	return b.res.Blackhole()
+}
+
 // Stop closes the listener (established connections stay unless closeConns).
 func (b *Backend) Stop(closeConns bool) {
 	b.mu.Lock()
